@@ -13,9 +13,14 @@ LEVEL_TEXT = ("C07_mutex/C07_contract/C07_open_once are proved for all interleav
               "the code by (1) the generated table of every backend call site with the locks syntactically held there (obligation C07_classes_ok: "
               "provided class >= documented class on the receiver's node, re-checked on every run) and (2) the rendezvous battery: every ordered pair of "
               "backend-reaching requests x path relation, first held inside the backend, second observed entering or not, compared with the model.")
-LEVEL_NOTE = ("Trusted: Coq kernel + vm_compute; go2coq LockGen (held-lock sets are computed by the generator's abstract interpreter; refuses unknown shapes); "
+LEVEL_NOTE = ("Trusted: Coq kernel + vm_compute; go2coq LockGen (abstract interpreter over every non-test file of package p9; plans are re-interpreted in Coq, "
+              "completeness against a hand-written inventory, contract table pinned; refuses unknown shapes, method values, unfollowable calls); "
               "the hand-written lock semantics (Locks/Locks.v: sync.RWMutex as mutual exclusion); 'overlap' means the instrumented backend's enter/exit events. "
-              "The theorems are about plans that keep each call inside its guard; that handler threads are such plans is what the generated table states.")
+              "C07_contract_sites is a FRAGMENT theorem: each thread runs the plan of ONE call site (start of the handler to the call, the call, release); that a whole "
+              "handler run is a succession of such fragments is not proved. C07_open_once is a hand model tied by open_ok (Open, the test and the update of opened inside openMu) "
+              "and by the battery (open|open on one fid, Opens <= 1). The property's 'random concurrent workloads with an overlap monitor' run in ./check C16 (same monitor "
+              "predicate LockCases.log_ok), not in ./check C07. 'Same path => same node' is the obligation C07_new_refs_ok plus the battery's created/attached fids; that "
+              "pathNodeFor returns one node per (node, name) is read from path_tree.go by hand (assumption).")
 DESIGN_REF = "6/C07"
 ASSUMPTIONS = [
     "sync.Mutex/RWMutex provide mutual exclusion; defer runs on return and panic",
@@ -25,8 +30,10 @@ ASSUMPTIONS = [
 TRUSTED_BASE = [
     "Coq 8.16.1 kernel, vm_compute (table checks, cases evaluation)",
     "axioms: none (Print Assumptions: closed under the global context)",
-    "go2coq LockGen (tools/go2coq/lockgen.go, lockgen_interp.go): lock sets held at each site, documented classes parsed from file.go",
-    "harness: gated monitoring backend (harness/p9/vhgate_backend_test.go), rendezvous battery (c07_rendezvous_test.go), p9 client used as driver",
+    "go2coq LockGen (tools/go2coq/lockgen.go, lockgen_interp.go): plans and lock sets at each site, fidRef constructions, documented classes parsed from file.go",
+    "harness: gated monitoring backend (harness/p9/vhgate_backend_test.go), rendezvous battery (c07_rendezvous_test.go), p9 client and in-package sendRecv used as driver",
+    "white-box TryLock/TryRLock probes of Server.renameMu, pathNode.opMu/childMu from inside the gated call (vhgate_backend_test.go): a rename of those fields breaks the harness build",
+    "props/C07.py rq()/to_case(): translation of observations to Coq cases (binding of T-message fields to paths, receiver role -> symbolic node)",
 ]
 
 FILES = ["vh_common_test.go", "vhgate_backend_test.go", "c07_rendezvous_test.go"]
@@ -39,13 +46,20 @@ def cpath(p):
 
 
 def rq(q):
-    refs = "[" + "; ".join("(%s, %s)" % (coq_string(k), cpath(v)) for k, v in sorted(q["refs"].items())) + "]"
-    names = "[" + "; ".join("(%s, %s)" % (coq_string(k), coq_string(v)) for k, v in sorted(q["names"].items())) + "]"
+    """A request names its table row by protocol-level keys: handler, backend method, the T-message field of the fid
+    the call is made on and the receiver's role relative to it (no names of locals)."""
+    fidkey = "fid:" + q["fidf"]
+    namekey = "msg." + q["namef"] if q.get("namef") else ""
+    recv = {"self": '(NOf %s)' % coq_string(fidkey),
+            "child": '(NChild (NOf %s) %s)' % (coq_string(fidkey), coq_string(namekey)),
+            "parent": '(NParent (NOf %s))' % coq_string(fidkey)}[q["role"]]
+    refs = "[" + "; ".join("(%s, %s)" % (coq_string("fid:" + k), cpath(v)) for k, v in sorted(q["refs"].items())) + "]"
+    names = "[" + "; ".join("(%s, %s)" % (coq_string("msg." + k), coq_string(v)) for k, v in sorted(q["names"].items())) + "]"
     entry = "(Some %s)" % cpath(q["entry"]) if q.get("entry") else "None"
     pr = q.get("probe") or {"rename": 3, "node": 3, "entry": 3}
-    return "(mkRq %s %s %s %s %s %s %s %s %s (%d, %d, %d))" % (coq_string(q["root"]), coq_string(q["method"]), q["recv"], refs, names,
+    return "(mkRq %s %s %s %s %s %s %s %s %s (%d, %d, %d) %s)" % (coq_string(q["root"]), coq_string(q["method"]), recv, refs, names,
                                                  coq_string(str(q["conn"])), coq_string("%s:%s" % (q["conn"], q["fid"])), cpath(q["node"]), entry,
-                                                 pr["rename"], pr["node"], pr["entry"])
+                                                 pr["rename"], pr["node"], pr["entry"], coq_string(fidkey))
 
 
 def to_case(o):
@@ -116,9 +130,11 @@ def run(ctx):
     ctx.coverage.update({
         "evaluations": len(rv),
         "distinct_nontrivial": len({o["key"] for o in rv}),
-        "rule": "ordered pairs of 20 backend-reaching requests x {samefid, twofids, crossconn, parentchild, childparent, siblings}; first held at a gate inside the "
-                "backend, second observed (event) entering or not within %d ms; quick = seeded third of the battery + all write/global pairs, thorough = all; "
-                "distinct = distinct (first, second, relation) triples that could be set up" % (rv[0]["wait_ms"] if rv else 0),
+        "rule": "ordered pairs of %d backend-reaching requests (incl. Tremove, Trename, xattr, tu*, Tlock) x %d path relations (same fid, two fids, cross connection, "
+                "parent/child, child/parent, siblings, entry of the first/second, fid from Tlcreate vs walked fid, two attach roots); first held at a gate inside the backend, "
+                "second observed (event) entering or not within %d ms; quick = seeded third of the battery + all pairs among the always-run set + the entry relations, "
+                "thorough = all; distinct = distinct (first, second, relation) triples that could be set up"
+                % (len({o["aname"] for o in rv}), len({o["rel"] for o in rv}), rv[0]["wait_ms"] if rv else 0),
         "correspondence": {"cases": len(rv), "mismatches": nm, "entered": sum(1 for o in rv if o["entered"]), "not_entered": sum(1 for o in rv if not o["entered"]),
                            "second_finished_without_call": sum(1 for o in rv if o.get("bdone") and not o["entered"]),
                            "suspects_reconfirmed": len(suspects), "pairs": len(pairs), "setup_failed": len(invalid), "hangs": len(hangs)},
@@ -128,7 +144,7 @@ def run(ctx):
 
 def search(ctx):
     """An obligation or the correspondence broke and no overlap was observed: run the whole battery."""
-    if ctx.thorough:
+    if ctx.thorough or (getattr(ctx, "search_budget_s", None) is not None and ctx.search_budget_s < 240):
         return
     ctx.tier = "thorough"
     ctx.thorough = True
